@@ -32,6 +32,8 @@ type FragReader struct {
 	Err      error
 	Full     bool // no fragmentation: every Read delivers as much as it can
 	MaxFrag  int  // if > 0: only the first MaxFrag reads may be fragmented
+	Budget   int  // if > 0: at most Budget reads are short (fragmented); -1 after it is used up
+	OneByte  bool // deliver exactly one byte per Read
 	EarlyErr bool
 	Failed   bool
 	Calls    int
@@ -61,8 +63,16 @@ func (r *FragReader) Read(p []byte) (int, error) {
 		max = limit
 	}
 	n := max
-	if !r.Full && max > 1 && (r.MaxFrag == 0 || r.Calls <= r.MaxFrag) {
+	if r.OneByte {
+		n = 1
+	} else if !r.Full && max > 1 && (r.MaxFrag == 0 || r.Calls <= r.MaxFrag) && r.Budget >= 0 {
 		n = Choose(1, max)
+		if n < max && r.Budget > 0 {
+			r.Budget--
+			if r.Budget == 0 {
+				r.Budget = -1
+			}
+		}
 	}
 	copy(p, r.Data[r.Pos:r.Pos+n])
 	r.Pos += n
